@@ -247,6 +247,24 @@ def standalone_qualified(s):
     return res
 
 
+def leaf_document(s):
+    """A Document whose root is a leaf (text and an attribute, no child elements), through both serializers."""
+    from suds.sax.document import Document
+    from suds.sax.element import Element
+    e = Element("a")
+    e.setText(s)
+    e.set("k", s)
+    d = Document(e)
+    out = {}
+    for name in ("plain", "str"):
+        try:
+            root = xmlread.parse(getattr(d, name)())
+            out[name] = (root["text"], root["attrs"].get((None, "k")))
+        except xmlread.XmlError as x:
+            out[name] = ("!malformed: %s" % x, None)
+    return out
+
+
 def read_after_write(s):
     """Serializing does not change the tree: text and attribute values read back from the objects after plain() /
     str() are still s, a second serialization is the same as the first, and a Document serialized again after an
@@ -306,6 +324,10 @@ class Paths:
         try:
             if enc == "utf-8":
                 doc = doc.encode("utf-8")
+            elif enc == "utf-16-be":
+                # big-endian with a byte order mark, a line end after the root element
+                import codecs
+                doc = codecs.BOM_UTF16_BE + ('<?xml version="1.0" encoding="UTF-16"?>' + doc + "\n").encode("utf-16-be")
             else:
                 label = {"utf-8-declared": "UTF-8", "utf-16": "UTF-16", "iso-8859-1": "ISO-8859-1"}[enc]
                 doc = ('<?xml version="1.0" encoding="%s"?>' % label + doc).encode(label)
@@ -347,6 +369,11 @@ def check_string(ctx, paths, s, model, deep):
             # (an attribute set to the empty string is there, empty)
             ctx.fail("attribute value not recovered (%s)" % path, inp, att, s, direction="request",
                      position="attr", path=path)
+    for path, (txt, att) in leaf_document(s).items():
+        ctx.case(("leaf-document", path, s), nontrivial)
+        if txt != s:
+            ctx.fail("element text not recovered (Document.%s of a leaf root)" % path, inp, txt, s,
+                     direction="request", position="text", path="document-" + path)
     ctx.case(("read-after-write", s), nontrivial)
     for problem in read_after_write(s):
         ctx.fail("serializing a tree changed it (or a later serialization)", inp, problem, "unchanged tree",
@@ -387,15 +414,15 @@ def check_string(ctx, paths, s, model, deep):
                 continue
             if v != s and not (s == "" and v in (None, "")):
                 ctx.fail("text of a reply element that also carries an attribute is not decoded to the document's string",
-                         {"s": s, "doc": doc.decode("utf-8", "replace") if not doc.startswith((b"\xff\xfe", b"\xfe\xff")) else doc.decode("utf-16")}, v, s, direction="reply", position="text+attr")
+                         {"s": s, "doc": doc.decode("utf-8", "replace") if not doc.startswith((b"\xff\xfe", b"\xfe\xff")) else doc.decode("utf-16", "replace")}, v, s, direction="reply", position="text+attr")
             ctx.case(("rep", soap12, s), nontrivial)
             exp_r = s
             if r != exp_r and not (s == "" and r in (None, "")):
                 ctx.fail("reply element text not decoded to the document's string",
-                         {"s": s, "doc": doc.decode("utf-8", "replace") if not doc.startswith((b"\xff\xfe", b"\xfe\xff")) else doc.decode("utf-16")}, r, s, direction="reply", position="text")
+                         {"s": s, "doc": doc.decode("utf-8", "replace") if not doc.startswith((b"\xff\xfe", b"\xfe\xff")) else doc.decode("utf-16", "replace")}, r, s, direction="reply", position="text")
             if k != s:       # (an attribute that is present and empty is the empty string, not None)
                 ctx.fail("reply attribute value not decoded to the document's string",
-                         {"s": s, "doc": doc.decode("utf-8", "replace") if not doc.startswith((b"\xff\xfe", b"\xfe\xff")) else doc.decode("utf-16")}, k, s, direction="reply", position="attr")
+                         {"s": s, "doc": doc.decode("utf-8", "replace") if not doc.startswith((b"\xff\xfe", b"\xfe\xff")) else doc.decode("utf-16", "replace")}, k, s, direction="reply", position="attr")
 
 
 def text_ops(ctx):
@@ -460,7 +487,7 @@ def run(ctx, deep_budget=None):
         check_string(ctx, paths, s, None, True)
     # replies in every encoding a document may declare (the value is the document's string, whatever bytes spell it)
     for s in ("\u00e9 x", "caf\u00e9 & cr\u00e8me", "\u20acuro", "\U0001d11e", "plain", "\u00fc<\u00df>"):
-        for enc in ("utf-8-declared", "utf-16", "iso-8859-1"):
+        for enc in ("utf-8-declared", "utf-16", "utf-16-be", "iso-8859-1"):
             for soap12 in (False, True):
                 ctx.case(("reply-encoding", enc, soap12, s), True)
                 ctx.dist["reply-encoding=" + enc] += 1
